@@ -222,9 +222,33 @@ func c05Genesis(chain *blockChain) *types.BlockHeader {
 	return g
 }
 
-// heavier(a,b): chain weight order of the property (cumulative QN, then prove value)
-func c05NotLighter(n, o *types.BlockHeader) bool {
-	return n.TotalQN >= o.TotalQN
+// chain weight order of the property: cumulative QN, then prove value, then hash, the latter two
+// taken at the fork point (the first block of each branch above the common ancestor). In this
+// tree every fork is at genesis, so the fork-point blocks are the height-1 blocks of the branches.
+func c05NotLighter(n, o *types.BlockHeader, forkN, forkO *types.BlockHeader) bool {
+	if n.Hash == o.Hash || n.PreHash == o.Hash || forkN == nil || forkO == nil || forkN.Hash == forkO.Hash {
+		return n.TotalQN >= o.TotalQN // unchanged head or plain extension
+	}
+	if n.TotalQN != o.TotalQN {
+		return n.TotalQN > o.TotalQN
+	}
+	if c := forkN.ProveValue.Cmp(forkO.ProveValue); c != 0 {
+		return c > 0
+	}
+	return new(big.Int).SetBytes(forkN.Hash.Bytes()).Cmp(new(big.Int).SetBytes(forkO.Hash.Bytes())) >= 0
+}
+
+// the height-1 block of the branch a header belongs to (nil for genesis)
+func c05ForkBlock(h *types.BlockHeader, a1, b1 *types.BlockHeader) *types.BlockHeader {
+	switch {
+	case h.Height == 0:
+		return nil
+	case h.Hash == a1.Hash || h.PreHash == a1.Hash:
+		return a1
+	case h.Hash == b1.Hash || h.PreHash == b1.Hash:
+		return b1
+	}
+	return nil
 }
 
 // Blocks A1, B1 (siblings on genesis), A2 (on A1), B2 (on B1) with symbolic quality numbers and
@@ -239,11 +263,11 @@ func c05Run(deliveries int, crash bool) {
 	g := c05Genesis(chain)
 
 	qn := func(n string) uint64 { v := uint64(symx.U8(n)); symx.Assume(v >= 1 && v <= 3); return v }
-	pv := func(n string) uint64 { v := uint64(symx.U8(n)); symx.Assume(v <= 2); return v }
+	pv := func(n string) uint64 { v := uint64(symx.U8(n)); symx.Assume(v <= 3); return v }
 	a1 := c05Make(chain, g, 0xa1, qn("qnA1"), pv("pvA1"))
 	b1 := c05Make(chain, g, 0xb1, qn("qnB1"), pv("pvB1"))
-	a2 := c05Make(chain, a1.b.Header, 0xa2, qn("qnA2"), 1)
-	b2 := c05Make(chain, b1.b.Header, 0xb2, qn("qnB2"), 1)
+	a2 := c05Make(chain, a1.b.Header, 0xa2, qn("qnA2"), pv("pvA2"))
+	b2 := c05Make(chain, b1.b.Header, 0xb2, qn("qnB2"), pv("pvB2"))
 	all := []*c05Blk{a1, b1, a2, b2}
 
 	delivered := map[int]bool{}
@@ -262,7 +286,7 @@ func c05Run(deliveries int, crash bool) {
 		all[i].deliver(chain)
 		w.logging = false
 		c05Invariant(chain, w, g, "after delivery")
-		symx.Check(c05NotLighter(chain.latestBlock, old), "the head only moves to a chain that is not lighter")
+		symx.Check(c05NotLighter(chain.latestBlock, old, c05ForkBlock(chain.latestBlock, a1.b.Header, b1.b.Header), c05ForkBlock(old, a1.b.Header, b1.b.Header)), "the head only moves to a chain that is not lighter (QN, then prove value, then hash at the fork point)")
 		symx.Check(pool.executed[chain.latestBlock.Hash] || chain.latestBlock.Height == 0, "the head's transactions are marked executed")
 		if last && crash {
 			k := symx.Choice("cut", len(w.log)+1)
